@@ -43,6 +43,9 @@ def run(ctx):
         for rep in range(reps):
             for ext in (".sm", ".ssc"):
                 data, enc_written = c05.rand_file(rng, ext)
+                for _ in range(40):
+                    if rep % 2 == 1 or b"#NOTES:" in data: break      # every other file carries a chart for certain
+                    data, enc_written = c05.rand_file(rng, ext)
                 tries = list(c05.DEFAULT_ENCODINGS)
                 detected = next(e for e in tries if c05.decodes(data, e))
                 tr = [[e, c05.decodes(data, e)] for e in tries]
@@ -67,6 +70,12 @@ def run(ctx):
                         def edit_ok(sf):
                             if "entry" not in cap: cap["entry"] = str(sf)
                             sf.title = new_title
+                            # the block also edits the charts in place (a field of one, the list itself): the backup is the
+                            # simfile as it was on entry whatever the block does to the objects it was handed
+                            if sf.charts:
+                                sf.charts[0].meter = "99"; sf.charts[0].notes = "1000\n0100\n0010\n0001\n"
+                                if len(sf.charts) > 1: sf.charts.pop()
+                                else: sf.charts.append(type(sf.charts[0]).blank())
                             if "exit" not in cap: cap["exit"] = str(sf); cap["dump"] = objs.dump(sf)
                         # fault-free run: learn N and the expected bytes ------------------------------
                         w = world(kind, files)
